@@ -250,12 +250,20 @@ func c14One(run *ev.Run, p c14P) {
 		switch kind {
 		case "add":
 			extra := c14GenRepo(r, 1, -1)
+			if extra[0].rec.ID == 0 {
+				// record ID 0000h in a request means "the first record": only a repository's first record
+				// can carry it, and the new record goes anywhere
+				extra[0].rec.ID = 0x4001
+			}
 			for _, x := range cur {
 				if x.rec.ID == extra[0].rec.ID {
 					extra[0].rec.ID ^= 0x4000
 				}
 			}
 			pos := r.Intn(len(cur) + 1)
+			if pos == 0 && len(cur) > 0 && cur[0].rec.ID == 0 {
+				pos = 1 + r.Intn(len(cur)) // a record with ID 0000h stays the first one
+			}
 			cur = append(cur[:pos], append(extra, cur[pos:]...)...)
 		case "erase":
 			if len(cur) > 1 {
